@@ -3,6 +3,7 @@ C04 — writes through any handle never clobber changes made via other handles.
 -/
 import SC.Lemmas.Seq
 import SC.Lemmas.Refine
+import SC.Lemmas.OpTable
 import SC.Lemmas.Natural
 import SC.Table
 import SC.Generated.Tables
@@ -46,6 +47,15 @@ theorem C04_load_is_merge (s : State) (oi : Nat) (o : Obj) (d : J)
   simp only [ho, hd]
   have hlt : oi < s.objs.length := (List.getElem?_eq_some_iff.mp ho).1
   simp [State.setObj, hlt]
+
+/-- OBLIGATION tying the hand-written operation model to the current source: for every concrete
+class, every mutating operation of the model has a method of that name defined in the repository
+whose outermost context is the overwrite context exactly for the operations the model treats as
+overwrites (clear, reset: no load at root level), and which validates its argument before the
+first `with` exactly for the operations the model pre-validates (`Op.isOverwrite_kind`,
+`preValidate_none_of_kind` connect the kinds to `call`). -/
+theorem C04_model_ops_match_table :
+    ∀ f ∈ Generated.families, ∀ c ∈ f.classes, OpsMatch c = true := by decide
 
 /-- C04 (with C01 and C02) as ONE refinement step.  Object `oi` is bound to a resource whose current
 content is `d` — written by whoever: this object, another object, an outside writer.  `oi`'s own
